@@ -231,6 +231,15 @@ func init() {
 			}
 		},
 	}
+	plans["C15"] = &Plan{
+		Level: "exploration",
+		Rule: "case = (document, sequence of 1-30 operations). Documents: scalars, empty containers, structure-random documents with duplicate/empty/escaped keys, objects with 15/16/17/18/33 members (hash-index threshold) and duplicates. Every operation (Get, Index, Len, Set, SetByIndex, Add, Unset, UnsetByIndex, Pop, Move, SortKeys(rec), Load, LoadAll, touch reads, iteration) is applied to the root or a node reached from it, on SIX replicas of the same document that differ only in how they were obtained (NewRaw, search result, Load()ed, LoadAll()ed, built with constructors, partially touched ConcurrentRead node; new values inserted as raw or constructed nodes) and on an ordered-tree model. After each operation: all replicas must observe the same result, and equal the model where the model defines it; after each mutation every replica's MarshalJSON must equal the model's serialisation as a token stream; at the end Interface() must equal encoding/json on the model text. SortKeys is generated only on objects whose subtree has no duplicated key (order of equal keys unspecified). distinct = hash(document, sequence index)",
+		Assumptions: append([]string{"the ordered-tree model in harness/cmd/worker/c15.go encodes the documented semantics (DESIGN appendix A); results the documentation leaves open are only compared across replicas"}, stdAssumptions...),
+		MinEvals:    5000, MinEvalsThorough: 300000,
+		Runs: func(string) []*Run {
+			return []*Run{{Name: "ast", Flavor: "plain", NBatch: 16, TimeoutS: n(900, 3000)}}
+		},
+	}
 	plans["C17"] = &Plan{
 		Level: "fault_enumeration",
 		Rule: "decoder: inputs = concatenations of 1-5 values (scalars incl. top-level numbers, strings with escapes, containers) with every separator shape (none, spaces, newlines, > 4096 spaces) and trailing classes (clean, white space, garbage byte, stray closer, truncated value). For small inputs (<= 40 bytes): the whole input, EOF-with-data, EVERY single cut, every pair of cuts with an interleaved empty read (inputs <= 26 bytes), and a reader FAILURE at EVERY byte position (whole reads and 1-byte reads) are enumerated; larger inputs (values crossing 4096/8192/16384-byte buffers): whole, 1-byte reads and 6 sampled chunkings with cuts at buffer boundaries, empty reads, EOF-with-data and a failure position. Oracle: encoding/json.Decoder driven by the very same reader behaviour: identical value sequence, identical terminal class (io.EOF / error / the injected error by identity), Decode never returns nil without InputOffset advancing (logical progress, bounded by len+3 calls). encoder: random values, Writer failing at EVERY write index, short writes, repeated Encode; bytes must equal Marshal (+newline unless disabled). distinct = hash(input bytes / expected bytes)",
